@@ -93,7 +93,9 @@ def compile_harness(h, only=None):
             probe_vals.append(("val", v))
         design = frag.prepare(ports=port_sigs, hierarchy=("top",))
         nl = build_netlist(design)
-    return _compile(nl, design, h, in_sigs, probes, probe_vals)
+    c = _compile(nl, design, h, in_sigs, probes, probe_vals)
+    c.design = design          # the elaborated design itself (conform.simulate_design runs exactly this elaboration)
+    return c
 
 
 def _resolve(nl, v):
